@@ -14,6 +14,7 @@
      pollers     two threads poll by taking/releasing a spinlock, a third sets the flag -> terminates
      cycle       retry loop with a stale expected value and no yield, nobody else runnable -> non-progress cycle
      rawspin     raw spin on a flag that a still-runnable thread will set -> terminates (unfair cycles are not alarms)
+     midpost     a post that lands in the middle of a spin iteration which then consumes it: not a no-op iteration
      stalepost   a wait loop like nsync's (timed semaphore wait, then a spin delay while "still waiting") that is
                  handed a stale post: the iteration has no net effect on memory, yet it must not be parked --
                  the next one sleeps to its deadline and ends the loop   -> terminates
@@ -30,7 +31,7 @@ static int *volatile leaked;
 static int futex_word, plain_flag;
 
 static int toy_setup (const char *program) {
-	static const char *const known[] = { "race", "norace", "relacq", "relaxed", "uaf", "deadstack", "overrun", "deadlock", "lostwake", "spin", "pollers", "stalepost", "futexconf", "cycle", "rawspin", NULL };
+	static const char *const known[] = { "race", "norace", "relacq", "relaxed", "uaf", "deadstack", "overrun", "deadlock", "lostwake", "spin", "pollers", "stalepost", "futexconf", "cycle", "rawspin", "midpost", NULL };
 	int i;
 	for (i = 0; known[i]; i++) if (!strcmp (program, known[i])) { snprintf (which, sizeof which, "%s", program); h_parse ("x"); return !strcmp (program, "pollers") || !strcmp (program, "futexconf") ? 3 : 2; }
 	return -1;
@@ -75,6 +76,13 @@ static void toy_thread (int me) {
 		   a fair scheduler leaves the cycle -> clean */
 		if (me == 0) { while (ATM_LOAD_ACQ (&aflag) == 0) { } }
 		else { mc_point (); ATM_STORE_REL (&aflag, 1); }
+	}
+	else if (!strcmp (which, "midpost")) {
+		/* a waiter that consumes posts and stops when it finds none (like a timed semaphore wait whose deadline
+		   has passed); the poster's store lands in the MIDDLE of an iteration, which consumes it: memory at the
+		   end of the iteration equals memory at its start, yet the next iteration behaves differently */
+		if (me == 0) { unsigned a = 0; for (;;) { uint32_t v = ATM_LOAD (&lockw); if (v == 0 && ATM_LOAD (&aflag) != 0) break; if (v != 0) ATM_STORE_REL (&lockw, 0); a = nsync_spin_delay_ (a); } }
+		else { ATM_STORE_REL (&aflag, 1); ATM_STORE_REL (&lockw, 1); }
 	}
 	else if (!strcmp (which, "spin")) {
 		if (me == 0) { unsigned a = 0; while (ATM_LOAD_ACQ (&aflag) == 0) a = nsync_spin_delay_ (a); }
